@@ -3,6 +3,7 @@
 # /tmp/wt_eval and runs the check against it through PYTHONPATH (used while /repo is busy).
 tier=$1; shift
 wt=${WT:-/tmp/wt_eval}
+[ -d "$wt" ] || git -C /repo worktree add -q --detach "$wt" HEAD   # scratch worktree; remove it afterwards: git -C /repo worktree remove --force $wt
 for sid in "$@"; do
   prop=${sid%%-*}
   cd $wt && git checkout -q -- . && git apply /verif/seeded/$sid/patch.diff || { echo "SEED $sid DOES NOT APPLY"; continue; }
